@@ -236,9 +236,31 @@ func runRelayTCPExecution(t *testing.T, seed int64, log *traceLog) { //nolint:cy
 				}
 			}
 		}
+		// The client's nonce goes stale once an hour and stays so until its next periodic request has been answered 438.
+		// Connect and ConnectionBind of the TCP allocation do not retry on 438 (and the public CreatePermission hands
+		// "try again" to its caller), so an application that dials or accepts in that window gets an error: behaviour
+		// outside the listed properties, noted in DESIGN.md.  This application avoids the window the way a careful one
+		// would: it asks for a permission (for an address nobody uses) until that succeeds, which renews the nonce.
+		spare := &net.TCPAddr{IP: net.IPv4(10, 1, 3, 4).To4(), Port: 5001}
+		lastFresh := time.Now()
+		freshen := func() {
+			if time.Since(lastFresh) < 30*time.Second {
+				return
+			}
+			for i := 0; i < 3; i++ {
+				if err := cl.CreatePermission(spare); err == nil {
+					break
+				}
+			}
+			lastFresh = time.Now()
+		}
 		nops := 25 + rng.Intn(30)
 		for op := 0; op < nops; op++ {
-			switch x := rng.Intn(100); {
+			x := rng.Intn(100)
+			if x < 44 {
+				freshen()
+			}
+			switch {
 			case x < 18: // the application dials a peer through the relay
 				k := peerNames[rng.Intn(len(peerNames))]
 				dup := openTo(k)
@@ -391,6 +413,10 @@ func runRelayTCPExecution(t *testing.T, seed int64, log *traceLog) { //nolint:cy
 				log.add(map[string]any{"e": "Idle", "d": d, "t": sec()})
 			}
 		}
+		// (Close sends its Refresh(0) without waiting for the answer: with a nonce that has gone stale the allocation
+		// would stay -- known finding D18, decided by the keep-alive driver.  Here the nonce is made fresh first.)
+		lastFresh = time.Time{}
+		freshen()
 		n0 := srv.AllocationCount()
 		_ = alloc.Close()
 		synctest.Wait()
